@@ -162,3 +162,13 @@ claim(
     "are values, not fabricated returns: Eval::Return is produced only from a Return responder.",
     trusted=["the generated match arms that turn a continuation into a call of the real function / default body / report() are macro output (not covered)", "BTreeMap::get isolation between methods (std)"],
 )
+
+claim(
+    "C18",
+    "Contracts and lemmas: Clone for Unimock yields an instance holding the pointer-equal Arc'd shared state, and independently built "
+    "mocks hold different Arcs [K-full]; new_call_pattern moves the ordered slot cursor only for ordered patterns, push on a new "
+    "method registers exactly that pattern, finish hands the lists over unchanged [K-full]; the first-match scan depends only on the "
+    "called method's own list [K-bnd, shared with C01]; lemma commuting_clauses over those contracts: swapping two adjacent clauses "
+    "of different methods, not both ordered, changes no method's pattern list and no ordered range [V].",
+    trusted=["map semantics of BTreeMap keyed by TypeId (std); distinct generic instantiations have distinct TypeIds (language)", "eval reads a Unimock only through shared_state (reviewed; not an obligation)", "the occupied-entry path of MockAssembler::push is not covered (see C14)"],
+)
